@@ -20,8 +20,19 @@ def impl_fn(F, trait, name, enum=ENUM):
     return F.body("<%s as %s>::%s" % (enum, trait, name))
 
 
+_FACTS = [None]
+
+
 def the_match(body, what):
     ms = [m for m in find_matches(body.value) if len(m["arms"]) >= 3]
+    if not ms and _FACTS[0] is not None:
+        # the table may live in a private helper the function delegates to (e.g. Display::fmt writing self.name())
+        F = _FACTS[0]
+        for c in walk(body.value):
+            if c.get("k") in ("call", "mcall"):
+                hb = F.private_helper(callee(c) or "", "decoder::factory::")
+                if hb is not None:
+                    ms += [m for m in find_matches(hb.value) if len(m["arms"]) >= 3]
     if len(ms) != 1:
         raise AnalysisError("%s: expected exactly one table-like `match`, found %d" % (what, len(ms)))
     return ms[0]
@@ -126,6 +137,7 @@ def clap_table(body):
 
 
 def run(ck, F, tier):
+    _FACTS[0] = F
     ck.explanation = (
         "Decided: the whole of C18 as table agreement - the 36-variant enum, FromStr, Display, "
         "clap ValueEnum and the factory `build_decoder` are each read as a finite table from the "
@@ -173,6 +185,14 @@ def run(ck, F, tier):
     for name, tab in (("build", T_build), ("show", T_show), ("clap", T_clap)):
         ck.floor("T0", "%s table rows" % name, len([k for k in tab if not is_catch_all(k)]), 36)
     ck.floor("T2", "parse table rows", len(T_parse), 36)
+
+    # Display writes the table text and nothing else: a single "{}" placeholder whose argument is the table (or the helper holding it)
+    from ..symx import parse_fmt_block
+    fmts = [parse_fmt_block(x) for x in walk(b_show.value) if x.get("k") == "block" and x.get("ty", "").startswith("std::fmt::Arguments")]
+    fmts = [f for f in fmts if f is not None]
+    wstr = [c for c in walk(b_show.value) if c.get("k") == "mcall" and c["m"] in ("write_str", "pad") and "Formatter" in (c.get("def") or "")]
+    tmpl_ok = (len(fmts) == 1 and fmts[0][0] == "{}" and len(fmts[0][1]) == 1) or (not fmts and len(wstr) == 1)
+    ck.inst("T3", "show:template", tmpl_ok, b_show.span, "Display::fmt writes exactly the table text (format template %r)" % (fmts[0][0] if fmts else "write_str/pad",))
 
     def expected(v):
         if v.startswith("HL"):
